@@ -19,7 +19,9 @@
 (*                                                                                                            *)
 (* A V1 bid names the COLLATERAL amount wanted; the handler computes the debt to pay at the posted price.     *)
 (* This module states the C01/C02/C09/C10 laws for this generation over (C, pre-state S, post-state S2, ...)  *)
-(* and the predictive operators of the seizure (V1Liquidate) used by the conformance formulas.               *)
+(* and the predictive operators used by the conformance formulas: the seizure (V1Liquidate, exact), the bid    *)
+(* (V1BidPredict: a relation - the two amounts are environment values constrained by the posted price), the    *)
+(* price update / restart (V1TickAuction, exact 18-decimal arithmetic on limbs).                               *)
 EXTENDS Harbor
 
 V1LockedIds(S) == {l.id : l \in Range(S.lockedV1)}
@@ -79,7 +81,7 @@ V1PriceInBand(a) == LLe(a.price, a.init) /\ LLe(a.endp, a.price)
 (* the code computes price = init*(tau - s)/tau with tau = floor(duration*init/(init - end)) whole seconds; over s <= duration this *)
 (* is never below init*(tau - duration)/tau. (The property itself - V1PriceInBand - demands the configured end price.)             *)
 V1Tau(C) == (C.v1.duration * C.v1.cusp.den) \div (C.v1.cusp.den - C.v1.cusp.num)
-V1PriceFloor(C, a) == V1Tau(C) > C.v1.duration => LLe(LMulBig(a.init, V1Tau(C) - C.v1.duration), LMulBig(a.price, V1Tau(C)))
+V1PriceFloor(C, a) == V1Tau(C) > C.v1.duration => LLe(LMulBig(a.init, V1Tau(C) - C.v1.duration), LMulBig(LAdd(a.price, <<1>>), V1Tau(C)))   \* + one unit in the 18th decimal (the quotient is rounded)
 V1PriceFalls(S, S2) == \A a2 \in Range(S2.auctionsV1) :
    a2.id \in V1AuctionIds(S) /\ V1AuctionById(S, a2.id).start = a2.start => LLe(a2.price, V1AuctionById(S, a2.id).price)
 (* start price = oracle price x buffer, end price = start price x cusp; posted price starts at the start price *)
@@ -150,4 +152,84 @@ V1View(C, S) == [ vaults |-> {[id |-> v.id, in |-> v.in, out |-> v.out] : v \in 
                   lnext |-> S.lockedV1next, anext |-> S.auctionV1next ]
 V1LiquidateConforms(C, S, a, ok, S2) ==
    LET r == V1Liquidate(C, S, a) IN r.ok = ok /\ V1View(C, r.s) = V1View(C, S2)
+(* ------------------------------------ predictive: the bid (relation) ------------------------------------ *)
+(* PlaceDutchAuctionBid computes the two amounts with 18-decimal sdk.Dec arithmetic; the specification takes the two amounts *)
+(* the code produced (paid, slice) as environment values constrained by the posted price up to one smallest unit on either    *)
+(* coin, and predicts everything else: which branch is taken and every balance, record, total and fee booking.                *)
+(*   slice = requested amount unless the remaining target caps the bid (then paid = remaining target, slice <= requested)      *)
+(*   close (normal)  iff debtGot + paid >= target : rest of the collateral to the owner, principal burnt, target - principal   *)
+(*                   to the collector and booked as net fees, product totals reduced by (initial collateral, principal)        *)
+(*   close (lossy)   iff all collateral sold below the target: the collector first covers the shortfall (only if its net      *)
+(*                   fees exceed it - otherwise the bid fails), then as above                                                   *)
+V1PriceLaw(C, au, paid, slice) ==
+   LET collSide(x) == LMulSmall(LMulSmall(au.price, x), DecOf(C, au.debtD))                             \* x collateral units  (x price / decColl), cross-multiplied
+       debtSide(y) == LMulBig(LMulSmall(LMulSmall(E18, y), DecOf(C, au.collD)), au.inPrice)             \* y debt units        (x inPrice / decDebt)
+   IN /\ (slice > 1 => LLe(collSide(slice - 1), debtSide(paid + 1)))
+      /\ (paid > 1 => LLe(debtSide(paid - 1), collSide(slice + 1)))
+SetNetFee(C, S, d, delta) == [S EXCEPT !.netfees = [k \in 1..Len(@) |-> IF @[k].asset = C.assets[d] THEN [@[k] EXCEPT !.amt = @ + delta, !.found = TRUE] ELSE @[k]]]
+V1SubTot(S, pid, coll, minted) == [S EXCEPT !.tot = LET old == @ IN [k \in 1..Len(old) |-> IF old[k].prod = pid THEN [old[k] EXCEPT !.coll = @ - coll, !.minted = @ - minted] ELSE old[k]]]
+V1BidPredict(C, S, a, paid, slice) ==
+   LET au == V1AuctionById(S, a.v)
+       l  == V1LockedById(S, au.lv)
+       u  == a.u
+       collected == au.debtGot + paid
+       s1 == [S EXCEPT !.ubal[u][au.debtD] = @ - paid, !.ubal[u][au.collD] = @ + slice]
+       open == [s1 EXCEPT !.bal.auctionV1[au.debtD] = @ + paid, !.bal.auctionV1[au.collD] = @ - slice,
+                          !.auctionsV1 = [k \in 1..Len(@) |-> IF @[k].id = au.id THEN [@[k] EXCEPT !.debtGot = collected, !.collLeft = au.collLeft - slice] ELSE @[k]]]
+       rest == au.collLeft - slice
+       net == collected - l.out                                   \* to the collector (after it covered a shortfall, if any)
+       c1 == [s1 EXCEPT !.ubal[au.owner][au.collD] = @ + rest,
+                        !.bal.auctionV1[au.collD] = @ - au.collLeft, !.bal.auctionV1[au.debtD] = @ - au.debtGot,
+                        !.supply[au.debtD] = @ - l.out, !.bal.collectorV1[au.debtD] = @ + net,
+                        !.auctionsV1 = SelectSeq(@, LAMBDA x : x.id # au.id), !.lockedV1 = SelectSeq(@, LAMBDA x : x.id # l.id)]
+       closed == V1SubTot(SetNetFee(C, c1, au.debtD, net), l.prod, au.collInit, l.out)
+   IN IF collected >= au.target THEN closed
+      ELSE IF rest = 0 THEN closed
+      ELSE open
+V1BView(C, S) == [ tot |-> {[prod |-> p.id, coll |-> TotOf(S, p.id).coll, minted |-> TotOf(S, p.id).minted] : p \in Range(C.prods)},
+                   abal |-> S.bal.auctionV1, cbal |-> S.bal.collectorV1, vbal |-> S.bal.vaultV1, ubal |-> S.ubal, supply |-> S.supply,
+                   netfees |-> {[asset |-> n.asset, amt |-> n.amt] : n \in Range(S.netfees)},
+                   locked |-> {V1LKey(l) : l \in Range(S.lockedV1)}, auctions |-> {V1AKey(x) : x \in Range(S.auctionsV1)}, vaults |-> S.vaults ]
+V1BidConforms(C, S, a, ok, S2) ==
+   ok => /\ a.v \in V1AuctionIds(S)
+         /\ LET au == V1AuctionById(S, a.v)
+                paid == V1Paid(S, S2, a.u, au)
+                slice == (S.bal.auctionV1[au.collD] - S2.bal.auctionV1[au.collD]) - (IF V1Closed(S, S2, au) THEN (S2.ubal[au.owner][au.collD] - S.ubal[au.owner][au.collD]) - (IF au.owner = a.u THEN V1Received(S, S2, a.u, au) ELSE 0) ELSE 0)
+            IN /\ a.d = au.collD /\ a.x > 0 /\ a.x <= au.collLeft /\ au.owner # a.u
+               /\ paid > 0 /\ paid <= au.target - au.debtGot
+               /\ slice = V1Received(S, S2, a.u, au) /\ slice <= a.x
+               /\ (paid < au.target - au.debtGot => slice = a.x)
+               /\ V1PriceLaw(C, au, paid, slice)
+               /\ (au.collLeft - slice = 0 /\ au.debtGot + paid < au.target => NetFeeOf(C, S, au.debtD) > au.target - (au.debtGot + paid))    \* the collector can cover the shortfall
+               /\ V1BView(C, V1BidPredict(C, S, a, paid, slice)) = V1BView(C, S2)
+
+(* ------------------------------------ predictive: price update / restart (outside emergency shutdown) ------------------------------------ *)
+(* RestartDutchAuctions, one atomic unit per auction: posted price := init * (tau - elapsed) / tau rounded half-even at 18 decimals,         *)
+(* tau = floor(duration / (1 - cusp)) whole seconds - the code as it is, i.e. WITHOUT a floor at the end price (known finding KF-C10-V1-1;   *)
+(* a clamped price is accepted as well so that the proposed repair conforms); after the end time: restart at oracle price x buffer.         *)
+RECURSIVE LRemAt(_, _, _, _)
+LRemAt(a, k, i, r) == IF i = 0 THEN r ELSE LRemAt(a, k, i - 1, (r * B + a[i]) % k)
+LRem(a, k) == LRemAt(a, k, Len(a), 0)
+LRoundDiv(a, k) == LET q == LDivSmall(a, k) r == LRem(a, k)                 \* banker's rounding of a / k (k small)
+                   IN IF 2 * r > k \/ (2 * r = k /\ LAt(q, 1) % 2 = 1) THEN LAdd(q, <<1>>) ELSE q
+V1TickAuction(C, S, t, au) ==          \* the auction record after a tick at time t (pre-state S for prices)
+   LET l == V1LockedById(S, au.lv) p == ProdOf(C, l.prod)
+       debtOk == ~p.outOracle \/ PriceRec(S, p.debtD).active
+       elapsed == t - au.start
+       tau == V1Tau(C)
+       raw == IF elapsed >= tau THEN <<>> ELSE LRoundDiv(LMulBig(au.init, tau - elapsed), tau)
+       upd == [au EXCEPT !.price = raw, !.inPrice = POut(C, S, p)]
+       init2 == LOfFrac(PIn(C, S, p), C.v1.buffer)
+   IN IF ~debtOk THEN {au}
+      ELSE IF t > au.end
+           THEN (IF PriceRec(S, p.collD).active
+                 THEN {[upd EXCEPT !.start = t, !.end = t + C.v1.duration, !.init = init2, !.price = init2,
+                                   !.endp = LDivSmall(LMulSmall(init2, C.v1.cusp.num), C.v1.cusp.den)]}
+                 ELSE {au})
+           ELSE {upd, [upd EXCEPT !.price = IF LLe(raw, au.endp) THEN au.endp ELSE raw]}
+V1TickConforms(C, S, ok, S2) ==
+   ok /\ ~S.ctl.esm =>
+      /\ V1AuctionIds(S2) = V1AuctionIds(S)
+      /\ \A au \in Range(S.auctionsV1) : V1AKey(V1AuctionById(S2, au.id)) \in {V1AKey(x) : x \in V1TickAuction(C, S, S2.t, au)}
+      /\ V1BView(C, [S2 EXCEPT !.auctionsV1 = S.auctionsV1]) = V1BView(C, S)
 =============================================================================
